@@ -29,6 +29,11 @@ CLAIMS = {
   text="Machine-checked proofs: what has been written after any prefix is a prefix of the output for that prefix alone and for the whole input (C11_written_is_prefix, all inputs); after any hunk body line, from any state, the output buffer is empty and each line buffer holds at most line-buffer-size+1 lines (C11_lag_bound). Tie: the real binary is fed line by line with stdin held open; after each line (quiescence = main thread blocked in read(0) with the pipe drained) the visible rows written so far are compared with the extracted model's written items, and the lag/prefix oracle is evaluated on the bytes, in unified and side-by-side mode.",
   note="Trusted: Coq kernel; /proc-based quiescence detection; harness. Merge-conflict regions are held until their end by design: known finding F12 (reported as KNOWN-FINDING). No axioms.",
   design="§6 C11"),
+ "C12": dict(
+  technique="Coq proof (word-level style grammar: canonical form / position-independence of attributes, colours by position, printed form round trip; ansi_term painting decoded by an independent SGR interpreter) + exhaustive white-box correspondence + --show-config round trip on the binary",
+  text="Machine-checked proofs over a word-level model of parse_ansi_term_style, Display for Style and ansi_term's painting: non-colour words may stand anywhere (C12_canonical, C12_attribute_position_irrelevant), first colour = foreground and second = background (C12_two_colours), a third colour is rejected, the printed form parses back to the very same style (C12_display_roundtrip), and text painted with a style decodes in an independently written SGR interpreter to exactly that style and ends in the default rendition (C12_paint_exact, from ansi_strings_balanced). Tie: through the hook driver, Style::from_str / Display / paint are compared with the extracted model on all style strings of <= 3 tokens over a 22-token alphabet (error cases sampled), all 256 palette numbers in both slots, random #rrggbb, case/quoting variants, in 24-bit and 256-colour mode; painted bytes are also decoded by the independent Python terminal model; every style-typed option is run through the binary and the value reported by --show-config is supplied again (byte-identical rendering required).",
+  note="Trusted: Coq kernel; the string-to-word lexer of the harness (lower-casing, splitting, quote trimming, colour-name table; the 24-bit->256 table and CSS names are table oracles taken from the implementation); hook driver. No axioms.",
+  design="§6 C12"),
  "C14": dict(
   technique="Coq proof (path extraction for every path, fragment passed on unchanged, one hunk-header item per hunk from any state) + black-box header-event oracle with reserved styles",
   text="Machine-checked proofs: the path taken from `diff --git x/P y/P`, `--- x/P`, `+++ y/P` is P for every path P not ending in a tab and any mnemonic prefixes (C14_diff_line_path, C14_marker_line_path); the fragment of a hunk header is exactly the text after the closing @@ (C14_fragment_unchanged); every hunk gets exactly one hunk-header item directly before its first line, from any state (C14_one_hunk_header); a computed example covers rename+modify, mode-only, binary and deleted sections. On the real binary, header rows are recognised by reserved styles and the decoded sequence of file-header / hunk-header events must equal the sequence computed from the diff AST: all section kinds x path shapes x labels/arrow x modes, multi-commit logs ending in hunk-less sections, plain diff -u / -ru streams.",
